@@ -38,6 +38,7 @@ F=[
  ("strip leading blank lines of the first statement of a block also when formatting a range", ['C09'], "`local p = 1\ndo\n\n\tlocal x = 1\nend` with a range that starts after byte 0 and contains the whole `do` statement: the blank line after `do` survives although the whole-file run removes it (the in-range test was repeated on the formatted statement, whose tokens have no positions)"),
  ("do not panic under --respect-ignores for a path outside", ['C16','C17'], "`--respect-ignores /abs/path/outside/cwd/x.lua` (also as --stdin-filepath) with a .styluaignore in the working directory: panic in the ignore matcher, exit 101"),
  ("do not let --glob bypass .styluaignore", ['C16'], "`-g '**/*.lua' .` formatted hidden files and files excluded by .styluaignore"),
+ ("accept call_parentheses = Input in .editorconfig", ['C20'], "`.editorconfig` with `call_parentheses = Input`: silently ignored (the default `Always` applied) although stylua.toml and --call-parentheses accept the value"),
 ]
 by={}
 for sub,props,what in F:
